@@ -458,6 +458,22 @@ class Interp(Evaluator):
     def ev_Lambda(self, e):
         return Closure(e, self.env)
 
+    def ev_ListComp(self, e):
+        if len(e.generators) != 1 or e.generators[0].is_async:
+            raise AnalysisError(f"comprehension outside the abstract domain: {norm(e)[:60]}")
+        g = e.generators[0]
+        saved = dict(self.env)
+        out = []
+        try:
+            for v in self.iter_values(g.iter):
+                self.store(g.target, v, e)
+                if all(self.ev(c) for c in g.ifs):
+                    out.append(self.ev(e.elt))
+        finally:
+            self.env.clear()
+            self.env.update(saved)
+        return out
+
     def ev_BinOp(self, e):
         if isinstance(e.op, ast.Pow):
             l, r = self.ev(e.left), self.ev(e.right)
